@@ -171,9 +171,11 @@ class SimProtoExporter:
 
         elif isinstance(output, BundleInstance):
             # Allow for `Diff` bundles
-            if output.bundle is not Diff:
+            if output.of is not Diff:
                 raise ValueError(f"Invalid Noise Output: {output}")
-            output_p, output_n = output.p.name, output.n.name
+            # By the time of export the testbench has been elaborated, and the bundle flattened
+            # into the signals named `{bundle}_p` and `{bundle}_n`.
+            output_p, output_n = f"{output.name}_p", f"{output.name}_n"
 
         elif is_connectable(output):
             # Single-ended Signal output
